@@ -5,6 +5,8 @@ EVERY answer of the position matcher that respects the species it was asked for 
 -/
 import MatidModel.SpanGraph
 import MatidGen.ProtoRule
+import Mathlib.Data.List.Nodup
+import Mathlib.Data.List.Lattice
 
 namespace Matid.Props.SpanGraph
 open Matid.SpanGraph
@@ -17,7 +19,7 @@ def hits (x : Node × (Option Nat × F3) × (Option Nat × F3)) : Nat :=
 theorem adjStep_metric (acc : Adj) (x : Node × (Option Nat × F3) × (Option Nat × F3)) :
     (adjStep acc x).metric = acc.metric + hits x := by
   unfold adjStep hits
-  cases h1 : x.2.1.1 <;> cases h2 : x.2.2.1 <;> simp <;> omega
+  cases h1 : x.2.1.1 <;> cases h2 : x.2.2.1 <;> simp
 
 theorem foldl_metric (xs : List (Node × (Option Nat × F3) × (Option Nat × F3))) (acc : Adj) :
     (xs.foldl adjStep acc).metric = acc.metric + (xs.map hits).sum := by
@@ -229,6 +231,133 @@ theorem component_is_connected (edges : List (Node × Node)) (v w : Node) (h : w
 theorem component_same_species (num : Nat → Nat) (edges : List (Node × Node)) (h : ∀ e ∈ edges, EdgeOk num e) (v w : Node)
     (hw : w ∈ componentOf edges v) : num v.1 = num w.1 :=
   chain_same_species num edges h v w (component_is_connected edges v w hw)
+
+/-! ### completeness of the closure: a computed network is a WHOLE connected component -/
+
+theorem nbrs_of_edge (edges : List (Node × Node)) (v w : Node) (h : (v, w) ∈ edges ∨ (w, v) ∈ edges) : w ∈ nbrs edges v := by
+  unfold nbrs
+  rw [List.mem_eraseDups, List.mem_filterMap]
+  rcases h with h | h
+  · exact ⟨(v, w), h, by simp⟩
+  · refine ⟨(w, v), h, ?_⟩
+    by_cases e : w = v
+    · subst e; simp
+    · have : (w == v) = false := by simpa using e
+      simp [this]
+
+theorem nbrs_mem_nodes (edges : List (Node × Node)) (v w : Node) (h : w ∈ nbrs edges v) : w ∈ nodesOf edges := by
+  unfold nodesOf
+  rw [List.mem_eraseDups, List.mem_flatMap]
+  rcases mem_nbrs edges v w h with h | h
+  · exact ⟨(v, w), h, by simp⟩
+  · exact ⟨(w, v), h, by simp⟩
+
+theorem nodup_eraseDups_node (l : List Node) : l.eraseDups.Nodup := by
+  match l with
+  | [] => simp
+  | a :: as =>
+    rw [List.eraseDups_cons]
+    have : (as.filter fun b => !b == a).length < as.length + 1 := Nat.lt_succ_of_le (List.length_filter_le _ _)
+    refine List.nodup_cons.mpr ⟨?_, nodup_eraseDups_node _⟩
+    rw [List.mem_eraseDups, List.mem_filter]; simp
+termination_by l.length
+
+theorem nbrs_nodup (edges : List (Node × Node)) (v : Node) : (nbrs edges v).Nodup := nodup_eraseDups_node _
+
+/-- the state of the search: `vis = done ++ frontier`, no node twice, every handled node has all its neighbours visited, everything
+visited is the start node or a node of the graph -/
+structure BfsInv (edges : List (Node × Node)) (s : Node) (done frontier vis : List Node) : Prop where
+  split : vis = done ++ frontier
+  nodup : vis.Nodup
+  closed : ∀ d ∈ done, ∀ w ∈ nbrs edges d, w ∈ vis
+  sub : ∀ w ∈ vis, w = s ∨ w ∈ nodesOf edges
+  start : s ∈ vis
+
+theorem length_le_of_sub (edges : List (Node × Node)) (s : Node) (vis : List Node) (hn : vis.Nodup)
+    (hs : ∀ w ∈ vis, w = s ∨ w ∈ nodesOf edges) : vis.length ≤ (nodesOf edges).length + 1 := by
+  have hsub : vis ⊆ s :: nodesOf edges := by
+    intro w hw
+    rcases hs w hw with rfl | h
+    · exact List.mem_cons_self
+    · exact List.mem_cons_of_mem _ h
+  have := List.Nodup.length_le_of_subset hn hsub
+  simpa using this
+
+theorem bfs_complete_aux (edges : List (Node × Node)) (s : Node) (fuel : Nat) (done frontier vis : List Node)
+    (h : BfsInv edges s done frontier vis) (hf : (nodesOf edges).length + 1 ≤ fuel + done.length) :
+    ∀ u w, u ∈ bfs edges fuel frontier vis → w ∈ nbrs edges u → w ∈ bfs edges fuel frontier vis := by
+  induction fuel generalizing done frontier vis with
+  | zero =>
+    -- all fuel used: every possible node has been handled, so the frontier is empty
+    have hl := length_le_of_sub edges s vis h.nodup h.sub
+    have : frontier = [] := by
+      have e : vis.length = done.length + frontier.length := by rw [h.split, List.length_append]
+      have : frontier.length = 0 := by omega
+      exact List.eq_nil_of_length_eq_zero this
+    subst this
+    unfold bfs
+    intro u w hu hw
+    have : u ∈ done := by rw [h.split] at hu; simpa using hu
+    exact h.closed u this w hw
+  | succ f ih =>
+    cases frontier with
+    | nil =>
+      unfold bfs
+      intro u w hu hw
+      have : u ∈ done := by rw [h.split] at hu; simpa using hu
+      exact h.closed u this w hw
+    | cons v rest =>
+      unfold bfs
+      apply ih (done ++ [v]) (rest ++ (nbrs edges v).filter fun w => !vis.contains w) (vis ++ (nbrs edges v).filter fun w => !vis.contains w)
+      · constructor
+        · rw [h.split]; simp
+        · rw [List.nodup_append]
+          refine ⟨h.nodup, (nbrs_nodup edges v).filter _, ?_⟩
+          intro a ha b hb
+          rw [List.mem_filter] at hb
+          have : b ∉ vis := by simpa using hb.2
+          intro e; exact this (e ▸ ha)
+        · intro d hd w hw
+          rcases List.mem_append.mp hd with hd | hd
+          · exact List.mem_append_left _ (h.closed d hd w hw)
+          · simp only [List.mem_singleton] at hd
+            subst hd
+            by_cases hv : w ∈ vis
+            · exact List.mem_append_left _ hv
+            · exact List.mem_append_right _ (List.mem_filter.mpr ⟨hw, by simpa using hv⟩)
+        · intro w hw
+          rcases List.mem_append.mp hw with hw | hw
+          · exact h.sub w hw
+          · right; exact nbrs_mem_nodes edges v w (List.mem_filter.mp hw).1
+        · exact List.mem_append_left _ h.start
+      · simp only [List.length_append, List.length_singleton]; omega
+
+/-- **a computed network contains every node that is joined to its first node by a chain of links** — with `component_is_connected`:
+it is exactly the connected component of that node -/
+theorem component_is_whole (edges : List (Node × Node)) (v w : Node) (r : Reach edges v w) : w ∈ componentOf edges v := by
+  have hinv : BfsInv edges v [] [v] [v] :=
+    ⟨rfl, by simp, (by intro d hd; cases hd), (by intro w hw; left; simpa using hw), by simp⟩
+  have hclosed := bfs_complete_aux edges v ((nodesOf edges).length + 1) [] [v] [v] hinv (by simp)
+  have hstart : v ∈ componentOf edges v := by
+    unfold componentOf
+    -- the start node stays visited: `vis` only grows
+    have grow : ∀ (fuel : Nat) (fr vis : List Node), v ∈ vis → v ∈ bfs edges fuel fr vis := by
+      intro fuel
+      induction fuel with
+      | zero => intro fr vis h; unfold bfs; exact h
+      | succ f ih =>
+        intro fr vis h
+        cases fr with
+        | nil => unfold bfs; exact h
+        | cons x rest => unfold bfs; exact ih _ _ (List.mem_append_left _ h)
+    exact grow _ _ _ (by simp)
+  induction r with
+  | refl => exact hstart
+  | step _ he ih => exact hclosed _ _ ih (nbrs_of_edge edges _ _ he)
+
+/-- the two directions together -/
+theorem component_iff (edges : List (Node × Node)) (v w : Node) : w ∈ componentOf edges v ↔ Reach edges v w :=
+  ⟨component_is_connected edges v w, component_is_whole edges v w⟩
 
 /-- the group reported for the seed atom holds the seed atom's node in the home cell -/
 theorem seed_in_its_group (adjs : List Adj) (neigh : List Node) (seed : Nat) (g : Groups) (i : Nat)
